@@ -28,8 +28,44 @@ _AUTO = {}
 _FN = {}
 
 
+_RANGES = {}
+
+
+def setup_call_ranges(P):
+    """Checked result-range summaries used by the interval engine (callees with a summary stay opaque):
+    MoveGen::len <= CAP x 64 x 4 (CAP from the list's type; per-entry bound from its loop), and the integer-valued private evaluation helpers."""
+    ck = id(P)
+    if ck in _RANGES:
+        IV.CALL_RANGES.clear()
+        IV.CALL_RANGES.update(_RANGES[ck])
+        return
+    IV.CALL_RANGES.clear()
+    try:
+        fld = [f for f in P.adt(MG + "iter::MoveGen")["variants"][0]["fields"] if f["name"] == "moves"][0]
+        m = re.search(r"ArrayVec<.*, (\d+)(usize)?>", fld["ty"])
+        if m:
+            r = IV.ret_range(P, MG + "iter::MoveGen::len", trips={"core::slice::Iter<": int(m.group(1)), "core::slice::iter::Iter<": int(m.group(1))})
+            if r:
+                IV.CALL_RANGES[MG + "iter::MoveGen::len"] = r
+    except (AnchorError, IndexError, KeyError):
+        pass
+    cands = [k for k, b in P.fns.items() if b["crate"] == "chess_engine" and b.get("kind") in ("fn", "assoc_fn") and not b.get("generic")
+             and b["locals"][0]["ty"] in ("i32", "i64", "u32", "i16", "u16", "usize") and not O.is_generated(k, b)]
+    for _ in range(2):
+        for k in sorted(cands):
+            if k not in IV.CALL_RANGES:
+                try:
+                    r = IV.ret_range(P, k)
+                except Exception:
+                    r = None
+                if r:
+                    IV.CALL_RANGES[k] = r
+    _RANGES[ck] = dict(IV.CALL_RANGES)
+
+
 def auto_discharge(P, sites, tag="all"):
     ck = (id(P), tag)
+    setup_call_ranges(P)
     if ck in _AUTO:
         return _AUTO[ck]
     fns = sorted({s["fn"] for s in sites if s["kind"] in ("assert", "call")})
@@ -38,15 +74,7 @@ def auto_discharge(P, sites, tag="all"):
         if fn not in P.fns:
             continue
         # per-body cache: a site's verdict is about its own function's paths (perturbation controls share unperturbed bodies)
-        bk = id(P.fns[fn])
-        if bk in _FN and _FN[bk][0] is P.fns[fn]:
-            res[fn] = _FN[bk][1]
-            continue
-        v, err = IV.analyse_fn(P, fn, inline=True, max_states=8000)
-        if v is None:
-            v, err = IV.analyse_fn(P, fn, inline=False)
-        res[fn] = v
-        _FN[bk] = (P.fns[fn], v)
+        res[fn] = _analysis(P, fn)
     auto = set()
     for s in sites:
         if s["kind"] == "unsafe":
@@ -56,6 +84,98 @@ def auto_discharge(P, sites, tag="all"):
             auto.add(s["key"])
     _AUTO[ck] = auto
     return auto
+
+
+_CALLERS = {}
+
+
+def callers_of(P, fn):
+    ck = id(P)
+    if ck not in _CALLERS:
+        m = {}
+        for k in P.fns:
+            if P.fns[k]["crate"] not in O.CORE:
+                continue
+            for _, t in P.calls(k):
+                f = t["f"].get("fn")
+                if f in P.fns:
+                    m.setdefault(f, set()).add(k)
+        _CALLERS[ck] = m
+    cs = set(_CALLERS[ck].get(fn, ()))
+    if "::{closure" in fn:
+        cs.add(fn[:fn.index("::{closure")])
+    return cs
+
+
+def _analysis(P, fn, big=False):
+    bk = (id(P.fns[fn]), big)
+    if bk in _FN and _FN[bk][0] is P.fns[fn]:
+        return _FN[bk][1]
+    v, err = IV.analyse_fn(P, fn, inline=True, max_states=8000)
+    if v is None and big:
+        v, err = IV.analyse_fn(P, fn, inline=True, max_states=60000)
+    if v is None:
+        v, err = IV.analyse_fn(P, fn, inline=False)
+    _FN[bk] = (P.fns[fn], v)
+    return v
+
+
+def context_safe(P, s, fn=None, depth=0, seen=None):
+    """A site of a non-public helper that cannot be bounded with opaque parameters is safe if it is safe in every calling context:
+    each workspace caller, analysed with the helper inlined, proves it (recursively through non-public callers)."""
+    fn = fn or s["fn"]
+    seen = seen or set()
+    if fn in seen or depth > 3 or s["kind"] == "unsafe":
+        return False
+    seen = seen | {fn}
+    if P.fns[fn].get("vis") == "pub" and "::{closure" not in fn:
+        return False                      # callable from outside with any argument
+    cs = callers_of(P, fn)
+    if not cs:
+        return False
+    for c in sorted(cs):
+        v = _analysis(P, c, big=True)
+        if v and v.get((s["fn"], s["block"])) == "safe":
+            continue
+        if v is not None and (s["fn"], s["block"]) in v:
+            return False                  # reached from this caller and not bounded there
+        if not context_safe(P, s, c, depth + 1, seen):
+            return False
+    return True
+
+
+def match_ledger(P, sites, auto, ledger, all_sites=None):
+    """{site key: (ledger entry, how)}: exact key first; then `migrated` matches: a site whose key is new takes over a ledger entry of the same
+    kind:what whose own site disappeared, when the two functions are the same or call-graph related (helper extracted / inlined, sites reordered).
+    One entry serves one site, so an additional unchecked operation of the same kind still comes out undischarged."""
+    live = {s["key"] for s in (all_sites or sites)}
+    out = {}
+    for s in sites:
+        if s["key"] not in auto and s["key"] in ledger:
+            out[s["key"]] = (ledger[s["key"]], "exact")
+    taken = {id(e) for e, _ in out.values()}
+    free = [e for k, e in ledger.items() if id(e) not in taken]      # the entry's own site is gone, or is now bounded automatically
+    reach = {}
+
+    def related(f, g):
+        if f == g or f not in P.fns:
+            return True
+        for a, b in ((f, g), (g, f)):
+            if a not in reach:
+                reach[a] = reachable_fns(P, [a])
+            if b in reach[a]:
+                return True
+        return False
+    for s in sites:
+        if s["key"] in auto or s["key"] in out:
+            continue
+        kw = f"|{s['kind']}:{s['what']}#"
+        for e in free:
+            if kw in e["key"] and related(e["key"].split("|")[0], s["fn"]):
+                out[s["key"]] = (e, "migrated from " + e["key"])
+                free.remove(e)
+                break
+    return out
 
 
 def sub_rules(ctx, module, rule_ids):
@@ -193,15 +313,19 @@ def inv_ptr(ctx):
         t = body["blocks"][x]["t"]
         if t["k"] == "switch" and any(s not in bl for s in c.succ[x]):
             conds.append(k2.describe_operand(P, body, t["d"]))
-    if not any(d[0] == "bin" and d[1] == "Lt" and d[2] == ("place", "i", ()) and d[3] == ("place", "end", ()) for d in conds):
-        out.append(f"set_mask's loop is not guarded by i < end: {str(conds)[:120]}")
+    guard = [d for d in conds if d[0] == "bin" and d[1] == "Lt" and d[2][0] == "place" and d[3][0] == "place" and d[2][2] == () and d[3][2] == ()]
+    if len(guard) != 1:
+        out.append(f"set_mask's loop is not guarded by a single `cursor < end` comparison of two pointer locals: {str(conds)[:120]}")
+        return out
+    cur_name, end_name = guard[0][2][1], guard[0][3][1]
     k2.EXPAND_NAMED[0] = True
     try:
-        ends = [k2.describe_def(P, body, kind, d) for kind, bi, d in k2.local_defs(body, [i for i, l in enumerate(body["locals"]) if l.get("n") == "end"][0])]
+        end_locals = [i for i, l in enumerate(body["locals"]) if l.get("n") == end_name and l["ty"].startswith("*")]
+        ends = [k2.describe_def(P, body, kind, d) for kind, bi, d in k2.local_defs(body, end_locals[0])] if end_locals else []
     finally:
         k2.EXPAND_NAMED[0] = False
     if not (len(ends) == 1 and ends[0][0] == "call" and "::add" in ends[0][1] and "len" in str(ends[0][2][1])):
-        out.append(f"`end` is not base.add(moves.len()): {str(ends)[:120]}")
+        out.append(f"the loop bound `{end_name}` is not base.add(moves.len()): {str(ends)[:120]}")
     # i and j advance by exactly one element; j only together with i
     adds = [(bi, t) for bi, t in P.calls(key) if "::add" in t["f"].get("fn", "") and "ptr" in t["f"].get("fn", "")]
     for bi, t in adds:
@@ -496,12 +620,20 @@ def r1(ctx):
     ctx.floor("automatically discharged sites", len(auto), 80 if checked else 20)
     classes = {}
     used_inv, used_chk = set(), set()
+    matched = match_ledger(P, sites, auto, ledger)
+    migrated = []
     for s in sites:
         if s["key"] in auto:
             classes.setdefault("A", []).append(s["key"])
             ctx.ob(f"A:{s['key']}", True, "", sample={"site": s["key"], "class": "A (intervals)", "span": s["span"]} if len(classes["A"]) <= 2 else None)
             continue
-        e = ledger.get(s["key"])
+        e, how = matched.get(s["key"], (None, None))
+        if e is None and context_safe(P, s):
+            classes.setdefault("A", []).append(s["key"])
+            ctx.ob(f"A:{s['key']}", True, "", sample={"site": s["key"], "class": "A (intervals, in every calling context)"})
+            continue
+        if e is not None and how != "exact":
+            migrated.append(f"{s['key']} <- {how}")
         if e is None:
             ctx.ob(f"UNDISCHARGED:{s['key']}", False, f"unchecked-operation obligation with no discharge: {s['kind']} {s['what']} in {s['fn']} "
                    f"({P.src_line(s['span']) if s.get('span') else ''}); the interval engine cannot bound it and the ledger has no entry", site=s.get("span"))
@@ -516,6 +648,8 @@ def r1(ctx):
     gone = [k for k in ledger if k not in {s["key"] for s in sites}]
     if gone:
         ctx.note(f"{len(gone)} ledger entries refer to sites that no longer exist (vacuous)")
+    if migrated:
+        ctx.note(f"{len(migrated)} ledger entries followed their site to a related function: " + "; ".join(migrated[:6]))
     ctx.note("classes: " + ", ".join(f"{k}={len(v)}" for k, v in sorted(classes.items())))
     for inv in sorted(used_inv):
         if ctx.shadow and inv in ("INV-BOOK", "INV-MAGIC", "INV-RANGE"):
@@ -567,11 +701,15 @@ def discharge_subset(ctx, roots, tag):
     sites = [s for s in O.enumerate_sites(P) if s["fn"] in fns]
     auto = auto_discharge(P, sites, tag)
     ledger = load_ledger()
+    all_sites = O.enumerate_sites(P)
+    matched = match_ledger(P, sites, auto, ledger, all_sites)
     probs, inv, chk = [], set(), set()
     for s in sites:
         if s["key"] in auto:
             continue
-        e = ledger.get(s["key"])
+        e = matched.get(s["key"], (None, None))[0]
+        if e is None and context_safe(P, s):
+            continue
         if e is None:
             probs.append(f"undischarged {s['kind']} {s['what']} in {s['fn']}")
             continue
@@ -589,6 +727,17 @@ def discharge_subset(ctx, roots, tag):
             probs.append(f"{name}: {r[0]}")
     return sites, fns, probs
 
+
+
+@rule("C07.W", "type-level: compile-fail witnesses with compiling twins (K6; thorough tier)")
+def rw(ctx):
+    from analysis import witness
+    if ctx.config != "ws":
+        return
+    witness.check(ctx, {'c07_move_unchecked_is_unsafe': 'Board::move_unchecked is callable from safe code', 'c07_pop_unchecked_is_unsafe': 'BitBoard::pop_unchecked is callable from safe code', 'c07_piece_of_unchecked_is_unsafe': 'RawBoard::piece_of_unchecked is callable from safe code'})
+
+
+rw.thorough_only = True
 
 # ------------------------------------------------------------------ controls
 def _cap17(P):
